@@ -5,6 +5,15 @@ import F3.Spec.Quorum
 the driver compares with the *specification* (`3p ≥ 2w` etc., `F3.Spec.Quorum`) and with the
 hand model of scaling. -/
 namespace Driver.Quorum
+
+/-- spec oracle for `Scaled()`: `p_i ≤ p_j → s_i ≤ s_j` for all pairs (hence equal powers get equal scaled powers),
+checked on the pairs sorted by (power, scaled) -/
+def orderPreserving (ps : List Int) (sc : List Nat) : Bool :=
+  let a := ((ps.zip sc).toArray.qsort (fun x y => x.1 < y.1 || (x.1 == y.1 && x.2 < y.2))).toList
+  let rec go : List (Int × Nat) → Bool
+    | x :: y :: r => (x.2 ≤ y.2) && (x.1 != y.1 || x.2 == y.2) && go (y :: r)
+    | _ => true
+  go a
 open Driver F3
 
 def step (_ : Unit) (line : String) : Unit × Verdict :=
@@ -64,6 +73,9 @@ def step (_ : Unit) (line : String) : Unit × Verdict :=
       | some ps, some sc, some tot =>
         if tot > 65535 then .oracle s!"scaled total {tot} > 65535"
         else if sc.any (· > 65535) then .oracle "scaled entry > 65535"
+        else if sc.length != ps.length then .oracle "one scaled power per entry"
+        else if sc.foldl (· + ·) 0 != tot then .oracle s!"the reported total {tot} is not the sum of the scaled powers"
+        else if !orderPreserving ps sc then .oracle "SCALED-ORDER scaled powers are not order-preserving (a member with at most the power of another got a larger scaled power, or equal powers got different ones)"
         else match Power.scaled ps with
           | some (msc, mtot) => if msc == sc && mtot == tot then .ok "scaled_ok" else .diff s!"model total {mtot}"
           | none => .diff "impl accepts, model rejects"
